@@ -147,7 +147,8 @@ class Trace:
         self.plans = {}               # obs name -> recorded plan
         self.plan_objs = {}
         self.obs = {}                 # obs name -> shadow record
-        for o in sim.instrument.observations:
+        self.cluster_only = getattr(sim, 'buffer', None) is None
+        for o in ([] if self.cluster_only else sim.instrument.observations):
             self.obs[o.name] = {'begin': None, 'finish': None, 'status_seq': [str(o.status.value)],
                                 'deposits': [], 'freed': None, 'freed_at': None, 'queued_at': None,
                                 'alloc_started_at': None, 'dequeued_at': None, 'resident': False,
@@ -169,8 +170,8 @@ class Trace:
         self.events_df = None
         self.max_alive = {}
         self.parts = sc['alg'].get('parts') if sc['alg']['kind'] == 'batch' else None
-        self.hot_cap = sim.buffer.hot[0].total_capacity
-        self.cold_cap = sim.buffer.cold[0].total_capacity
+        self.hot_cap = None if self.cluster_only else sim.buffer.hot[0].total_capacity
+        self.cold_cap = None if self.cluster_only else sim.buffer.cold[0].total_capacity
         self.extra = extra or {}
         self.provision_calls = []
         self.reservation_sizes = []
@@ -296,7 +297,14 @@ class Trace:
 
     # ---------------------------------------------------------------- observers
     def after_event(self):
+        want_ing = self.check_pools()
+        if self.cluster_only:
+            return
         sim = self.sim
+        r = self.pools()
+        self.check_rest(sim, r, want_ing)
+
+    def check_pools(self):
         r = self.pools()
         # --- C02 partition
         seen = [m.id for m in r['available']] + [m.id for m in r['ingest']] + [m.id for m in r['occupied']]
@@ -319,6 +327,9 @@ class Trace:
                     self.V('C09', 'reservation_set_changed', f"{m.id} sits in reservation {name} but was reserved for {self.m[m.id]['res']}")
         if self.parts is not None and len(self.res_live) > self.parts:
             self.V('C09', 'too_many_reservations', f"{len(self.res_live)} reservations live > partitions {self.parts}")
+        return want_ing
+
+    def check_rest(self, sim, r, want_ing):
         # --- C07 ledger
         hot = sim.buffer.hot[0]
         cold = sim.buffer.cold[0]
@@ -389,6 +400,8 @@ class Trace:
 
     def end_of_step(self, t):
         """called before the first event of a later timestep: state here == beginning of step t+1"""
+        if self.cluster_only:
+            return
         sim = self.sim
         snap = self.snapshot()
         self.snaps[t + 1] = snap
